@@ -552,5 +552,5 @@ def run(ctx, tier):
             'commit operates on the File inside that guard; (writer-reads-after-lock) the writer snapshots header and free list only after it owns the lock; '
             '(publish-before-unlock) nothing is written or published after the lock holder is dropped; (lock-order) the lock-order graph closed over the call graph '
             'from all public entry points and Drop impls is acyclic, shared acquisitions counted as conflicting; (reader-free-of-writer) readers never touch the writer '
-            'lock; (snapshot-source) the header a transaction starts from is computed from the mapped file only, never from a copy cached in shared state. (reader-free-of-writer, third clause) a transaction the crate begins with writable = true reaches commit; (snapshot-source, second clause) begin stores the header that selection returned. NOT decided: progress under OS scheduling, same-thread misuse, starvation.'),
+            'lock; (snapshot-source) the header a transaction starts from is computed from the mapped file only, never from a copy cached in shared state. (reader-free-of-writer, third clause) a transaction the crate begins with writable = true reaches commit; (snapshot-source, second clause) begin stores the header that selection returned. (no-busy-wait) no polling loop on the begin / commit / open / drop paths. NOT decided: progress under OS scheduling, same-thread misuse, starvation.'),
         assumptions=['std::sync::Mutex/RwLock provide mutual exclusion', 'each thread holds at most one transaction (documented contract)'])
